@@ -124,7 +124,7 @@ def judge(ctx, items, res, driver, case):
         if cat == 'pad':
             ctx.violation('%s:align:pad' % PROP, msg, driver, case, expected='minimal zero padding', observed=c.out[:64])
     for idx, it in enumerate(items):
-        bad = compare_item(it, wu.places[idx], wc.places[idx], wu.labels, wc.labels, u.out, c.out)
+        bad = compare_item(it, wu.places[idx], wc.places[idx], wu.env, wc.env, u.out, c.out)
         if bad:
             key = '%s:%s:%s:%s' % (PROP, progs.head(it), progs.spec_class(it), bad[0])
             ctx.violation(key, '%r: %s' % (it['text'][:60], bad[1]), driver, case, expected='same meaning as without compression',
